@@ -17,7 +17,7 @@ RULE = ("histories of 1..30 operations drawn by a Hypothesis state machine from:
         "(mask/index/slice), get_bigarray, set_bigarray (list and 2-D array), writefile+readfile, wrong-length "
         "rejections (column, mask, ragged table), mutation of earlier copies; six initial states (empty+addcolumn, dict-built, dict of strided views of one table, dict of int64 columns written with integer-valued floats, text-file "
         "loaded, HDF loaded); plus exhaustive enumeration of all sequences to depth 3 (quick) / 4 (thorough) "
-        "over a fixed 14-operation alphabet from each initial state; arrays handed in are contiguous or strided views; oracle = ordered-dict model + aliasing "
+        "over a fixed 14-operation alphabet from each initial state; sub-check typed: one sortby / removerows (integer, tolerance) on tables whose columns are float64/float32/int64/int32/uint8/uint16/uint32/uint64/bool with values near 0, 40 000 and 1e6 a quarter apart (non-trivial there = rows moved or some, not all, removed); arrays handed in are contiguous or strided views; oracle = ordered-dict model + aliasing "
         "probe + storage-independence of copies; non-trivial history = contains get_bigarray/set_bigarray "
         "followed by a mutator, or a copy followed by a mutation of the source; distinct = hash of the "
         "history")
